@@ -269,6 +269,15 @@ def check_config(cfg, counters, viols, case_of):
                 # the pipeline it extends is a blocking one: that is inherited like the loop is, not left undecided
                 add('C19:blocking-mode-not-inherited@%s' % _klass(cfg), '%r: the pipeline is blocking (asynchronous=False), the new node has '
                     'asynchronous=None (its loop: %s)' % (cfg, lk))
+            if exp[2] is None and cfg[1] != 'sink' and cfg[1] not in SOURCES:
+                # nothing has declared a mode anywhere in this pipeline: declaring one now is legal (a loop-needing node that
+                # inherited its loop must not have decided "blocking" on the pipeline's behalf)
+                counters['undeclared_pipelines_given_a_mode_afterwards'] = counters.get('undeclared_pipelines_given_a_mode_afterwards', 0) + 1
+                try:
+                    n.pluck(0, asynchronous=True)
+                except ValueError as ex:
+                    add('C19:undeclared-pipeline-refuses-a-mode@%s' % _klass(cfg), '%r: no node was given a mode (the new node has '
+                        'asynchronous=%r, loop %s), yet a further node with asynchronous=True is refused: %r' % (cfg, n.asynchronous, lk, ex))
             # one loop per pipeline + mode agreement
             if n.loop is not None:
                 for m in nodes[:-1]:
